@@ -61,6 +61,12 @@ class Case:
     def delays(self):
         return {s: (BASE + rank * STEP) * self.scale for rank, s in enumerate(self.order)}
 
+    def quiet(self, j, delay):
+        """a stage that terminates by itself after `delay` ms independently of its neighbours: it reads
+        nothing and only the last stage writes (its output file) - a write into a pipe whose reader is
+        already gone would be a SIGPIPE, i.e. an additional failure at another time"""
+        return "s%d,w16,x0" % delay if j == self.n - 1 else "s%d,x0" % delay
+
     def script_and_missing(self):
         """STUB_SCRIPT and roles missing from the PATH directory."""
         ent, missing = [], []
@@ -77,13 +83,17 @@ class Case:
             # data really flows: everyone reads to EOF; the failing stage fails at once
             ent.append("%s#%d=%s" % (STAGE_ROLES[s], k, "x1" if fmode != "SIGSEGV" else "kSEGV"))
             return ";".join(ent), ()
+        if self.flow == "early-reader":
+            # former hang (fixed by 06e6c71): stage s+1 exits 0 without reading, stage s writes more than
+            # a pipe holds; it must now get SIGPIPE and the invocation must fail cleanly
+            return "%s#%d=w300000,x0;%s#%d=s100,x0" % (STAGE_ROLES[s], k, STAGE_ROLES[s + 1], k), ()
         if self.flow == "blocked":
             # stage s-1 writes more than a pipe holds and is stuck until it is killed; s fails
             ent.append("%s#%d=w400000,x0" % (STAGE_ROLES[s - 1], k))
             ent.append("%s#%d=s%d,x1" % (STAGE_ROLES[s], k, BASE * self.scale))
             for j in range(self.n):
                 if j not in (s, s - 1):
-                    ent.append("%s#%d=s%d,w16,x0" % (STAGE_ROLES[j], k, 6 * BASE * self.scale))
+                    ent.append("%s#%d=%s" % (STAGE_ROLES[j], k, self.quiet(j, 6 * BASE * self.scale)))
             return ";".join(ent), ()
         for j in range(self.n):
             role = STAGE_ROLES[j]
@@ -92,9 +102,9 @@ class Case:
             elif j == s:
                 continue
             elif fmode == "spawn":
-                ent.append("%s#%d=s%d,w16,x0" % (role, k, 5 * BASE * self.scale))   # killed long before
+                ent.append("%s#%d=%s" % (role, k, self.quiet(j, 5 * BASE * self.scale)))   # killed long before
             else:
-                ent.append("%s#%d=s%d,w16,x0" % (role, k, d[j]))
+                ent.append("%s#%d=%s" % (role, k, self.quiet(j, d[j])))
         if fmode == "spawn":
             if k == 0:
                 missing.append(STAGE_ROLES[s])
@@ -119,6 +129,10 @@ class Case:
                 bits = "1" * s + "0" + "1" * (self.n - s - 1)
                 reaps = "/".join("%d:f" % j for j in range(s)) or "-"
                 toks.append("P%d,%s,0,%s" % (self.n, bits, reaps))
+                continue
+            if self.flow == "early-reader":
+                rs = ["%d:o" % (s + 1), "%d:f" % s] + ["%d:f" % j for j in range(self.n) if j not in (s, s + 1)]
+                toks.append("P%d,%s,0,%s" % (self.n, "1" * self.n, "/".join(rs)))
                 continue
             if self.flow == "blocked":
                 rs = ["%d:f" % s] + ["%d:f" % j for j in range(self.n) if j != s]
@@ -235,6 +249,10 @@ def gen_cases(ck):
     cases.append(Case(2, "link", (1, 2, "exit-before-reading")))
     cases.append(Case(3, "link", (2, 0, "SIGKILL"), order=(0, 1, 2, 3)))
     cases.append(Case(2, "link", ("ld", "spawn")))
+    # former hang: `cproc -c a.c` with STUB_SCRIPT="cpp#0=w300000,x0;cproc-qbe#0=s100,x0" (fixed by 06e6c71)
+    cases.append(Case(1, "c", (0, 0, "SIGPIPE"), flow="early-reader"))
+    cases.append(Case(2, "link", (1, 1, "SIGPIPE"), flow="early-reader"))
+    cases.append(Case(1, "S", (0, 1, "SIGPIPE"), flow="early-reader"))
     for nin in (1, 2, 3):
         for mode in MODES:
             n = MODES[mode][1]
@@ -345,9 +363,8 @@ def run(ck):
                       "log": ck.build_log[-3000:]}, nofail=True)
     ck.assumptions = ["a child that was sent SIGTERM terminates (tools that ignore SIGTERM are outside the property)",
                       "wait() returns every terminated child exactly once; kill/unlink/posix_spawn behave as in POSIX",
-                      "a tool whose downstream exits with status 0 WITHOUT reading its input to the end is not a "
-                      "failure: the driver keeps the read ends of its pipes open, the writer blocks for ever and the "
-                      "driver hangs (observed with stubs; outside the failure modes of C18, reported separately)",
+                      "a writer whose reader exited (even with status 0) is killed by SIGPIPE or fails with EPIPE (the "
+                      "driver closes the read end it handed over; former hang, fixed by 06e6c71, in the corpus)",
                       "a driver that is itself killed by a signal does not run its atexit handler (temporaries stay)"]
 
 
@@ -367,6 +384,6 @@ META = {
     "note": ("Trusted: Lean kernel + standard axioms; the hand-written model (tied by K-C); OS behaviour (wait, kill, "
              "SIGTERM delivery, pipes) assumed as stated in the evidence; stub tools and checks/drvkc.py.  Termination "
              "orders are forced with delays of 90 ms; a disagreement is re-run alone with tripled delays before it is "
-             "reported.  Not decided: tools ignoring SIGTERM; a reader that exits 0 early (the driver then hangs)."),
+             "reported.  Not decided: tools ignoring SIGTERM."),
     "technique": "Lean 4 proof over all schedules of a transition system + fault-injection correspondence with the real driver",
 }
